@@ -226,6 +226,9 @@ class SuperSpeedStreamInEndpoint(Elaboratable):
             interface.tx_sequence_number  .eq(Mux(advance_sequence, next_sequence_number, sequence_number)),
             interface.tx_length           .eq(read_fill_count),
             interface.tx_endpoint_number  .eq(self._endpoint_number),
+
+            # The NRDY and ERDY packets we request are about this endpoint.
+            handshakes_out.endpoint_number.eq(self._endpoint_number),
         ]
 
         with m.FSM(domain='ss'):
